@@ -1081,4 +1081,63 @@ theorem implied_x_step1
   rw [hstep1] at this
   omega
 
+/-- **One data record is always right**: a log pass held in one record has a single group. -/
+theorem implied_x_single_record
+    (d : Dfsr) (w : Nat) (s : Int) (rle : List Item01) (st : Store) (fsOld : Option FrameSet) (sl : Option Sl)
+    (chList : Option (List Nat)) (t : Int) (n : Nat) (hone : expand rle = [(t, n)])
+    (hi : IndCtx d ⟨w, d.chans.map Chan.size⟩ w) (hu : d.spacingUnits = d.depthUnits) (hs : d.spacing = some s)
+    (hcl : ∀ c ∈ selIdxI d chList, c < d.chans.length) (hne : selIdxI d chList ≠ [])
+    (hst : ∀ tn ∈ expand rle, ∃ bs x, Store.find st tn.1.toNat = some bs ∧ bs.head? = some d.dataType ∧
+      bs.length = 2 + w + tn.2 * sumN (d.chans.map Chan.size) ∧ xDecode d.depthRc (beWord ((bs.drop 2).take w)) = .ok x)
+    (hlt : (slOrAll sl (rle01Total rle)).start < (slOrAll sl (rle01Total rle)).stop)
+    (hstop : (slOrAll sl (rle01Total rle)).stop ≤ rle01Total rle) :
+    (setFrameSet ⟨d, ⟨w, d.chans.map Chan.size⟩, 0, rle, fsOld⟩ st sl chList).1.frameSet.map (·.xvec)
+      = some ((rangeList (slOrAll sl (rle01Total rle)).start (slOrAll sl (rle01Total rle)).stop
+          (slOrAll sl (rle01Total rle)).step1).map
+            (fun (f : Nat) => some (xrecOf d st w t + (f : Int) * spacingOf d s))) := by
+  have hR : IncTells (expand rle) := by rw [hone]; simp [IncTells]
+  have hstep : 0 < (slOrAll sl (rle01Total rle)).step1 := by unfold Sl.step1; split <;> omega
+  obtain ⟨hG, hflat, _⟩ := groupsOf_spec (expand rle) hR (slOrAll sl (rle01Total rle)).start (slOrAll sl (rle01Total rle)).stop
+    (slOrAll sl (rle01Total rle)).step1 hstep (by rw [← expand_total]; exact hstop)
+  apply implied_x_partial d w s rle st fsOld sl chList hi hu hs hcl hne hR hst hlt hstop _ (xrecOf d st w t)
+  · intro f t' off h
+    rw [hone] at h
+    simp only [locate] at h
+    split at h
+    · simp only [Option.some.injEq, Prod.mk.injEq] at h; obtain ⟨rfl, rfl⟩ := h; rfl
+    · simp [locate] at h
+  · -- all keys are `t`, keys are strictly increasing: at most one group
+    have hkeys : ∀ e ∈ groupsOf (expand rle) (slOrAll sl (rle01Total rle)).start (slOrAll sl (rle01Total rle)).stop
+        (slOrAll sl (rle01Total rle)).step1, e.1 = t := by
+      intro e he
+      obtain ⟨a', len, hb⟩ := hG.2 e he
+      have hm : (e.1, a') ∈ flat (groupsOf (expand rle) (slOrAll sl (rle01Total rle)).start (slOrAll sl (rle01Total rle)).stop
+          (slOrAll sl (rle01Total rle)).step1) := by
+        simp only [flat, List.mem_flatMap, List.mem_map]
+        exact ⟨e, he, a', by rw [hb]; simp [ap]; exact ⟨0, by omega, by simp⟩, rfl⟩
+      rw [hflat] at hm
+      obtain ⟨f, hf, hl⟩ := List.mem_map.1 hm
+      have hfb := (mem_rangeList _ _ _ f hf).2
+      have hfn : f < n := by
+        have : rle01Total rle = n := by rw [expand_total, hone]; simp
+        omega
+      rw [hone] at hl
+      simp [locate, hfn] at hl
+      exact hl.1.symm
+    cases hg : groupsOf (expand rle) (slOrAll sl (rle01Total rle)).start (slOrAll sl (rle01Total rle)).stop
+        (slOrAll sl (rle01Total rle)).step1 with
+    | nil => simp
+    | cons x xs =>
+      cases xs with
+      | nil => simp
+      | cons y ys =>
+        exfalso
+        have hpw := hG.1
+        rw [hg] at hpw hkeys
+        simp only [List.map_cons, List.pairwise_cons] at hpw
+        have h1 := hkeys x (by simp)
+        have h2 := hkeys y (by simp)
+        have := hpw.1 y.1 (by simp)
+        omega
+
 end TD.C06
